@@ -644,9 +644,11 @@ func (h *hh) Task(id int, ctx context.Context, in ...uint64) rt.Out {
 	err := h.body(0, id, 0, ctx, EvTaskStart, EvTaskEnd, args, 0, 0, x.d.Len[id], outcome, x.d.Stuck[id])
 	var o rt.Out
 	o.Err = err
-	if err == nil {
-		for k := range o.V {
+	for k := range o.V {
+		if err == nil {
 			o.V[k] = progen.OutVal(x.prog.ID, id, k, args)
+		} else {
+			o.V[k] = progen.ErrVal // returned next to the error: nobody may see it
 		}
 	}
 	return o
